@@ -137,7 +137,8 @@ def run_tlc(module, cfg, wd, workers=None, timeout=1800, env=None, simulate=None
     if "Temporal properties were violated" in out:
         r.violated.append("<temporal>")
     r.ok = ("Model checking completed. No error has been found." in out) or \
-           (simulate is not None and "Error" not in out and p.returncode == 0)
+           (simulate is not None and p.returncode == 0 and
+            not any(l.startswith("Error:") for l in out.splitlines()))
     if coverage:
         for m in re.finditer(r"<(\w+) line \d+, col \d+ to line \d+, col \d+ of module (\w+)>: (\d+):(\d+)", out):
             r.coverage[m.group(1)] = (int(m.group(3)), int(m.group(4)))
